@@ -98,6 +98,8 @@ class DNode(_Node):
         self.compression = compression
         self.value = None          # nested list (row-major) when known
         self.oplog = []            # ("resize", shape) / ("write", key, data)
+        self.np = None             # real NumPy structured array (1-d tables of data frames)
+        self.chunked = True        # False: created from an array without chunks -> not resizable
 
 
 class Store:
@@ -227,6 +229,14 @@ def _join(base, name):
 def _attr_out(v):
     if isinstance(v, bytes):
         return v.decode("utf-8")
+    if isinstance(v, _np.ndarray):
+        return v.copy()
+    return v
+
+
+def _attr_in(v):
+    if isinstance(v, _np.ndarray):
+        return v.copy()
     return v
 
 
@@ -247,13 +257,13 @@ class Attrs:
 
     def __setitem__(self, name, value):
         self.h._check_write("create attribute")
-        self.h.node.attrs[name] = value
+        self.h.node.attrs[name] = _attr_in(value)
 
     def modify(self, name, value):
         self.h._check_write("modify attribute")
         if name not in self.h.node.attrs:
             raise KeyError(name)
-        self.h.node.attrs[name] = value
+        self.h.node.attrs[name] = _attr_in(value)
 
     def __delitem__(self, name):
         self.h._check_write("delete attribute")
@@ -357,6 +367,15 @@ class Group(_Handle):
         self._check_write("create link")
         if isinstance(name, bytes):
             name = name.decode("utf-8")
+        if isinstance(obj, _np.ndarray) and _is_npc(obj.dtype) and obj.ndim == 1:
+            # h5py: group[name] = array creates a contiguous dataset (maxshape = shape)
+            if name in self.node.links:
+                raise OSError("Unable to create link (name already exists)")
+            node = DNode(obj.shape, obj.dtype, tuple(obj.shape), None)
+            node.np = _npc_in(obj, obj.dtype, None)
+            node.chunked = False
+            self.node.links[name] = node
+            return
         if not isinstance(obj, _Handle):
             raise TypeError("fakeh5: only hard links to existing objects are modelled")
         if name in ("", ".") or "/" in name:
@@ -440,6 +459,11 @@ class Group(_Handle):
             if s < 0:
                 raise ValueError("Unable to create dataset (negative extent)")
         node = DNode(shape, dtype, maxshape, kw.get("compression"))
+        if _is_npc(dtype):
+            if len(shape) != 1:
+                raise TypeError("fakeh5: tables are 1-d")
+            node.np = _npc_zeros(shape[0], dtype)
+            node.chunked = bool(chunks) or (maxshape is not None and tuple(maxshape) != tuple(shape))
         self.node.links[name] = node
         return Dataset._make(self.file, node, _join(self.name, name))
 
@@ -795,6 +819,118 @@ class _DT:
         return "fakeh5.dtype(%r)" % (self.dt,)
 
 
+
+# ---------------------------------------------------------------------------
+# 1-d tables with a NumPy compound type (data frames): the rows live in a real
+# structured array; variable-length text columns hold str and are handed out as
+# bytes (as h5py 3 does); row indices may be symbolic integers - they are made
+# concrete by comparison chains over the (concrete) number of rows, never by
+# realisation, so the path tree stays finite for unbounded indices.
+# ---------------------------------------------------------------------------
+def _is_npc(dtype):
+    return isinstance(dtype, _np.dtype) and dtype.fields is not None
+
+
+def _npc_strfields(dtype):
+    import h5py
+    return [n for n in dtype.names if h5py.check_string_dtype(dtype.fields[n][0]) is not None]
+
+
+def _npc_zeros(n, dtype):
+    arr = _np.zeros(int(n), dtype=dtype)
+    for fld in _npc_strfields(dtype):
+        for i in range(len(arr)):
+            arr[fld][i] = ""
+    return arr
+
+
+def _npc_in(data, dtype, shape):
+    """what h5py does with a value written into a compound dataset: numpy.asarray(value, dtype)"""
+    if isinstance(data, _np.ndarray) and data.dtype.fields is not None and data.dtype.names != dtype.names:
+        raise TypeError("fakeh5: field names of the written rows differ from the table's")
+    if isinstance(data, list):
+        data = [tuple(r) if isinstance(r, (_np.void, list)) else r for r in data]
+    arr = _np.array(data, dtype=dtype)          # raises for ragged rows / inconvertible cells
+    arr = arr.copy()
+    flat = arr.reshape(-1) if arr.shape else arr.reshape(1)
+    for fld in _npc_strfields(dtype):
+        for i in range(len(flat)):
+            v = flat[fld][i]
+            if isinstance(v, bytes):
+                flat[fld][i] = v.decode("utf-8")
+            elif isinstance(v, str):
+                flat[fld][i] = str(v)
+            else:
+                raise TypeError("Can't implicitly convert non-string objects to strings")
+    return flat.reshape(arr.shape) if arr.shape else flat[0:1].reshape(())
+
+
+def _npc_out(res):
+    """rows handed out: a private copy, text columns as bytes"""
+    res = res.copy()
+    dt = res.dtype
+    if dt.fields is None:
+        if dt == _np.dtype("O"):
+            flat = res.reshape(-1) if isinstance(res, _np.ndarray) and res.shape else None
+            if flat is not None:
+                for i in range(len(flat)):
+                    if isinstance(flat[i], str):
+                        flat[i] = flat[i].encode("utf-8")
+        return res
+    if isinstance(res, _np.void):
+        for fld in _npc_strfields(dt):
+            res[fld] = res[fld].encode("utf-8")
+        return res
+    flat = res.reshape(-1)
+    for fld in _npc_strfields(dt):
+        col = flat[fld]
+        for i in range(len(flat)):
+            col[i] = col[i].encode("utf-8")
+    return res
+
+
+def _conc_index(k, n, fancy=False):
+    """a (possibly symbolic) integer row index -> concrete position in [0, n), else IndexError"""
+    if isinstance(k, bool) or not isinstance(k, (int, _np.integer)):
+        try:
+            k = k.__index__()
+        except Exception:
+            raise TypeError("Illegal index %r" % (k,))
+    for j in range(n):
+        if k == j or k == j - n:
+            return j
+    if fancy:
+        raise IndexError("Fancy indexing out of range for (0-%d)" % (n - 1))
+    raise IndexError("Index (%s) out of range for (0-%d)" % ("k", n - 1))
+
+
+def _npc_key(key, n):
+    """normalise an h5py selection on a 1-d table -> (kind, concrete numpy key)"""
+    if isinstance(key, tuple):
+        if len(key) == 0:
+            return "all", slice(None)
+        if len(key) > 1:
+            raise TypeError("Argument sequence too long")
+        key = key[0]
+    if key is Ellipsis:
+        return "all", slice(None)
+    if isinstance(key, slice):
+        st, sp, se = key.indices(n)
+        if se < 1:
+            raise ValueError("Step must be >= 1 (got %d)" % se)
+        return "slice", slice(st, sp, se)
+    if isinstance(key, (list, range, _np.ndarray)):
+        items = list(key)
+        if any(isinstance(x, (bool, _np.bool_)) for x in items):
+            raise TypeError("fakeh5: boolean masks on tables are not modelled")
+        idx = [_conc_index(x, n, fancy=True) for x in items]
+        for a, b in zip(idx, idx[1:]):
+            if not a < b:
+                raise TypeError("Indexing elements must be in increasing order")
+        return "list", idx
+    return "int", _conc_index(key, n)
+
+
 def _fill(shape):
     if len(shape) == 0:
         return 0
@@ -819,6 +955,8 @@ class Dataset(_Handle):
 
     @property
     def dtype(self):
+        if self.node.np is not None:
+            return self.node.np.dtype
         return _DT(self.node.dtype)
 
     @property
@@ -841,6 +979,19 @@ class Dataset(_Handle):
         if len(shape) != len(self.node.shape):
             raise TypeError("New shape length (%d) must match dataset rank (%d)"
                             % (len(shape), len(self.node.shape)))
+        if self.node.np is not None:
+            if not self.node.chunked:
+                raise TypeError("Only chunked datasets can be resized")
+            n, old_n = shape[0], self.node.shape[0]
+            if n < 0:
+                raise ValueError("Unable to set dataset extent (negative extent)")
+            new = _npc_zeros(n, self.node.np.dtype)
+            m = min(n, old_n)
+            new[:m] = self.node.np[:m]
+            self.node.np = new
+            self.node.shape = (n,)
+            self.node.oplog.append(("resize", shape))
+            return
         self.node.oplog.append(("resize", shape))
         old = self.node.shape
         self.node.shape = shape
@@ -867,6 +1018,14 @@ class Dataset(_Handle):
 
     def __getitem__(self, key):
         self.file._check_open()
+        if self.node.np is not None:
+            arr = self.node.np
+            if isinstance(key, str):
+                if key not in arr.dtype.names:
+                    raise ValueError("Field %s does not appear in this type." % key)
+                return _npc_out(arr[key])
+            kind, ck = _npc_key(key, arr.shape[0])
+            return _npc_out(arr[ck])
         shape = self.node.shape
         v = self._value()
         if isinstance(key, str):
@@ -909,6 +1068,20 @@ class Dataset(_Handle):
         self.file._check_open()
         if self.file.readonly:
             raise OSError("Can't write data (no write intent on file)")
+        if self.node.np is not None:
+            arr = self.node.np
+            val = _npc_in(data, arr.dtype, None)        # h5py converts the value first
+            kind, ck = _npc_key(key, arr.shape[0])
+            new = arr.copy()
+            if kind == "int":
+                if val.shape not in ((), (1,)):
+                    raise TypeError("Can't broadcast %r -> ()" % (val.shape,))
+                new[ck] = val.reshape(-1)[0]
+            else:
+                new[ck] = val           # NumPy broadcasting rules = h5py's for 1-d selections
+            self.node.np = new
+            self.node.oplog.append(("write", key, data))
+            return
         _check_convertible(self.node.dtype, data)
         self.node.oplog.append(("write", key, data))
         shape = self.node.shape
@@ -1083,7 +1256,8 @@ def snapshot(store, normalize=True):
                       tuple((name, rec(ch)) for name, ch in node.links.items() if not invisible(ch)))
         else:
             out[k] = ("d", tuple(sorted((a, _canon(v)) for a, v in node.attrs.items())),
-                      tuple(node.shape), repr(node.dtype), _canon(node.value))
+                      tuple(node.shape), repr(node.dtype),
+                      _canon(node.value) if node.np is None else ("npc", tuple(node.np.tolist()), node.chunked))
         return k
     rec(store.root)
     return out
